@@ -1,8 +1,166 @@
 import SpowtdModel.Model.Load
 import SpowtdModel.Lemmas.LoadBSort
+import SpowtdModel.Lemmas.LoadBInterp
+import SpowtdModel.Lemmas.LoadBGaps
 import SpowtdModel.Lemmas.LoadBChord
-/- Helper lemmas for Props/C10Levels.lean. -/
+/- Helper lemmas for Props/C10Levels.lean: inversion of `load` and assembly. -/
 namespace Spowtd
 namespace LoadB
+variable {α : Type}
+
+/-- the valid intervals used by `load` -/
+def ivsOf (f : Files α) (dt : Int) : List (Int × Int × Nat) :=
+  validIntervals ((gridCore f.rain f.level).headD 0) ((gridCore f.rain f.level).getLastD 0 + dt)
+    (gapsOf ((sortRows f.level).map (·.1)))
+
+theorem load_invB [Num α] (f : Files α) (d : Loaded α) (h : load f false = .ok d) :
+    hasDup (f.level.map (·.1)) = false ∧
+    ∃ dt, stepOf (gridCore f.rain f.level) = some dt ∧
+      d.level = (gridCore f.rain f.level).filterMap (fun g =>
+        match labelOf (ivsOf f dt) g, interp (sortRows f.level) g with
+        | some _, some v => some (g, v)
+        | _, _ => none) ∧
+      d.grid = (gridCore f.rain f.level ++ [(gridCore f.rain f.level).getLastD 0 + dt]).map
+        (fun g => (g, labelOf (ivsOf f dt) g)) := by
+  unfold load at h
+  simp only [Bool.false_eq_true, if_false] at h
+  split at h
+  · cases h
+  · rename_i hdup
+    simp only [Bool.or_eq_true, not_or, Bool.not_eq_true] at hdup
+    refine ⟨hdup.2, ?_⟩
+    split at h
+    · cases h
+    · rename_i dt hdt
+      refine ⟨dt, hdt, ?_⟩
+      split at h
+      · cases h
+      · cases h
+        exact ⟨rfl, rfl⟩
+
+/-! ### the grid core -/
+
+theorem gridCore_sortedB (rain level : List (Int × α)) :
+    (gridCore rain level).Pairwise (· ≤ ·) := by
+  unfold gridCore
+  split
+  · apply List.Pairwise.filter
+    exact List.pairwise_map.2 (sortRows_sortedLE rain)
+  · exact List.Pairwise.nil
+
+theorem mem_gridCoreB (rain level : List (Int × α)) (g : Int) (hg : g ∈ gridCore rain level) :
+    ∃ lo nhi, minOf (level.map (·.1)) = some lo ∧ minOf (level.map (fun z => - z.1)) = some nhi ∧
+      lo ≤ g ∧ g ≤ - nhi := by
+  unfold gridCore at hg
+  split at hg
+  · rename_i lo nhi h1 h2
+    rw [List.mem_filter] at hg
+    simp only [Bool.and_eq_true, decide_eq_true_eq] at hg
+    exact ⟨lo, nhi, h1, h2, hg.2.1, hg.2.2⟩
+  · simp at hg
+
+theorem getLastD_memB (l : List Int) (d : Int) (h : l ≠ []) : l.getLastD d ∈ l := by
+  induction l generalizing d with
+  | nil => exact absurd rfl h
+  | cons x xs ih =>
+    rw [List.getLastD_cons]
+    cases xs with
+    | nil => simp
+    | cons y ys => exact List.mem_cons_of_mem _ (ih x (by simp))
+
+theorem le_getLastDB (l : List Int) (d g : Int) (hs : l.Pairwise (· ≤ ·)) (hg : g ∈ l) :
+    g ≤ l.getLastD d := by
+  induction l generalizing d with
+  | nil => simp at hg
+  | cons x xs ih =>
+    rw [List.getLastD_cons]
+    rw [List.pairwise_cons] at hs
+    cases xs with
+    | nil =>
+      simp only [List.mem_singleton] at hg
+      simp [hg]
+    | cons y ys =>
+      rcases List.mem_cons.1 hg with rfl | hg
+      · exact hs.1 _ (getLastD_memB (y :: ys) g (by simp))
+      · exact ih x hs.2 hg
+
+theorem headD_leB (l : List Int) (d g : Int) (hs : l.Pairwise (· ≤ ·)) (hg : g ∈ l) :
+    l.headD d ≤ g := by
+  cases l with
+  | nil => simp at hg
+  | cons x xs =>
+    rw [List.pairwise_cons] at hs
+    rcases List.mem_cons.1 hg with rfl | hg
+    · simp
+    · exact hs.1 g hg
+
+theorem stepOf_nonnegB (core : List Int) (dt : Int) (hs : core.Pairwise (· ≤ ·))
+    (h : stepOf core = some dt) : 0 ≤ dt := by
+  unfold stepOf at h
+  cases core with
+  | nil => simp [diffs] at h
+  | cons a t =>
+    cases t with
+    | nil => simp [diffs] at h
+    | cons b rest =>
+      have hd : diffs (a :: b :: rest) = (b - a) :: diffs (b :: rest) := rfl
+      rw [hd] at h
+      simp only at h
+      split at h
+      · simp only [Option.some.injEq] at h
+        rw [List.pairwise_cons] at hs
+        have := hs.1 b List.mem_cons_self
+        omega
+      · cases h
+
+theorem levelEpochs_strictB (level : List (Int × α)) (h : hasDup (level.map (·.1)) = false) :
+    ((sortRows level).map (·.1)).Pairwise (· < ·) :=
+  List.pairwise_map.2 (sortRows_sortedLT level h)
+
+theorem gaps_okB (level : List (Int × α)) (h : hasDup (level.map (·.1)) = false) :
+    GapsOK (gapsOf ((sortRows level).map (·.1))) :=
+  gapsOf_okB _ (levelEpochs_strictB level h)
+
+/-- every core instant lies within the span of the sorted level record -/
+theorem core_spanB (rain level : List (Int × α)) (g : Int) (hg : g ∈ gridCore rain level) :
+    (∃ a ∈ sortRows level, a.1 ≤ g) ∧ (∃ b ∈ sortRows level, g ≤ b.1) := by
+  obtain ⟨lo, nhi, h1, h2, h3, h4⟩ := mem_gridCoreB rain level g hg
+  have m1 := minOf_memB _ _ h1
+  have m2 := minOf_memB _ _ h2
+  rw [List.mem_map] at m1 m2
+  obtain ⟨a, ha, ha1⟩ := m1
+  obtain ⟨b, hb, hb1⟩ := m2
+  refine ⟨⟨a, (mem_sortRowsB a level).2 ha, ?_⟩, ⟨b, (mem_sortRowsB b level).2 hb, ?_⟩⟩
+  · omega
+  · omega
+
+/-! ### assembly -/
+
+theorem ivsOf_labelB (f : Files α) (dt : Int) (g : Int) :
+    labelOf (ivsOf f dt) g =
+      lab ((gridCore f.rain f.level).getLastD 0 + dt) ((gridCore f.rain f.level).headD 0)
+        (gapsOf ((sortRows f.level).map (·.1))) 0 g := by
+  unfold ivsOf lab
+  rw [validIntervals_eqB]
+
+theorem mem_levelB [Num α] (core : List Int) (ivs : List (Int × Int × Nat)) (zs : List (Int × α))
+    (g : Int) (v : α) :
+    (g, v) ∈ core.filterMap (fun g =>
+        match labelOf ivs g, interp zs g with
+        | some _, some v => some (g, v)
+        | _, _ => none) ↔
+      g ∈ core ∧ (∃ l, labelOf ivs g = some l) ∧ interp zs g = some v := by
+  rw [List.mem_filterMap]
+  constructor
+  · rintro ⟨e, he, hm⟩
+    split at hm
+    · rename_i l w hl hw
+      simp only [Option.some.injEq, Prod.mk.injEq] at hm
+      obtain ⟨rfl, rfl⟩ := hm
+      exact ⟨he, ⟨l, hl⟩, hw⟩
+    · cases hm
+  · rintro ⟨hc, ⟨l, hl⟩, hw⟩
+    exact ⟨g, hc, by rw [hl, hw]⟩
+
 end LoadB
 end Spowtd
